@@ -171,6 +171,9 @@ class OsuMapMeta(
 
     def write_meta_string_list(self) -> List[str]:
         """Writes everything Meta"""
+        # unidecode turns the separators U+2028/U+2029 into line feeds: keep a value on its line
+        title = unidecode(self.title).replace("\n", " ")
+        artist = unidecode(self.artist).replace("\n", " ")
         return [
             "osu file format v14",
             "",
@@ -193,9 +196,9 @@ class OsuMapMeta(
             f"TimelineZoom: {self.timeline_zoom:g}",
             "",
             "[Metadata]",
-            f"Title:{unidecode(self.title)}",
+            f"Title:{title}",
             f"TitleUnicode:{self.title_unicode}",
-            f"Artist:{unidecode(self.artist)}",
+            f"Artist:{artist}",
             f"ArtistUnicode:{self.artist_unicode}",
             f"Creator:{self.creator}",
             f"Version:{self.version}",
